@@ -325,3 +325,26 @@ def unitary_equiv(c1, c2):
     from qiskit.quantum_info import Operator
 
     return Operator(c1).equiv(Operator(c2))
+
+
+def differ_on_states(c1, c2, tries=2):
+    """True if the two circuits provably denote different unitaries (even up to a global phase): they map some product state to states of
+    fidelity < 1.  Usable far beyond the widths where the full operator fits (statevector simulation: up to about 16 qubits)."""
+    import numpy as np
+    from qiskit.circuit import QuantumCircuit
+    from qiskit.quantum_info import Statevector
+
+    n = c1.num_qubits
+    if c2.num_qubits != n or n > 16:
+        return False
+    gen = np.random.default_rng(12345)
+    for _ in range(tries):
+        prep = QuantumCircuit(n)
+        for q in range(n):
+            prep.ry(float(gen.uniform(0, np.pi)), q)
+            prep.rz(float(gen.uniform(0, 2 * np.pi)), q)
+        a = Statevector(prep.compose(c1))
+        b = Statevector(prep.compose(c2))
+        if abs(np.vdot(a.data, b.data)) ** 2 < 1 - 1e-9:
+            return True
+    return False
